@@ -29,7 +29,7 @@ import (
 // C05 — user login is granted only by a listed key or a live grant, failing closed.
 
 func init() {
-	Register(&Scenario{Name: "login", Property: "C05", Fn: scLogin})
+	Register(&Scenario{Name: "login", Property: "C05", Fn: scLogin, Yields: true})
 }
 
 // ---------------------------------------------------------------------------
@@ -133,7 +133,7 @@ func buildKeysFile(r *Run, key string, valid []keys.DHPublicKey, others []keys.D
 	}
 	n := r.Intn(key, 6)
 	for i := 0; i < n; i++ {
-		switch r.Intn(key, 11) {
+		switch r.Intn(key, 14) {
 		case 0:
 			lines = append(lines, "# a comment")
 		case 1:
@@ -160,6 +160,11 @@ func buildKeysFile(r *Run, key string, valid []keys.DHPublicKey, others []keys.D
 		case 9: // another user's valid key
 			if len(others) > 0 {
 				lines = append(lines, keyLine(others[r.Intn(key, len(others))]))
+			}
+		case 10, 11: // a valid key text that is NOT a well-formed entry: something precedes or follows it on the line
+			if len(others) > 0 {
+				l := keyLine(others[r.Intn(key, len(others))])
+				lines = append(lines, []string{"#" + l, "# " + l, "no-pty " + l, "x" + l, "hop-kem-v1-" + l, l + " user@host", l + "#", l + "=="}[r.Intn(key, 8)])
 			}
 		default:
 			lines = append(lines, "hop-dh-v1-")
@@ -198,7 +203,7 @@ func passwdEntry(user, home string) (*etcpwdparse.EtcPasswdEntry, error) {
 	return &e, err
 }
 
-func startAppServer(r *Run, n *Net, users []string, enableGrants bool, dataTimeout time.Duration) (*TServer, *hopserver.HopServer, *simFS) {
+func startAppServer(r *Run, n *Net, users []string, enableGrants bool, dataTimeout time.Duration) (*TServer, *hopserver.HopServer, *simFS, *config.ServerConfig) {
 	ks := AuthKeySet()
 	cv := &transport.VerifyConfig{InsecureSkipVerify: true}
 	ts := StartServer(r, n, ServerOpts{ClientVerify: cv, HSTimeout: 3 * time.Second})
@@ -226,7 +231,7 @@ func startAppServer(r *Run, n *Net, users []string, enableGrants bool, dataTimeo
 			go hs.VerifNewSession(h)
 		}
 	})
-	return ts, hs, sfs
+	return ts, hs, sfs, sc
 }
 
 func keysPath(user string) string { return "home/" + user + "/.hop/authorized_keys" }
@@ -270,7 +275,7 @@ func scLogin(r *Run) {
 	n.Cfg.Latency = time.Duration(1+r.Intn("cfg", 10)) * time.Millisecond
 	enableGrants := r.Intn("cfg", 2) == 0
 	users := []string{"alice", "bob", "carol"}
-	ts, hs, sfs := startAppServer(r, n, users, enableGrants, 0)
+	ts, hs, sfs, srvCfg := startAppServer(r, n, users, enableGrants, 0)
 	r.SetCfg("grants", enableGrants)
 	userKeys := map[string][]*keys.X25519KeyPair{}
 	var allKeys []*keys.X25519KeyPair
@@ -440,6 +445,9 @@ func scLogin(r *Run) {
 	// conservation of grants under concurrent additions and consumptions through the two
 	// entry points: every added grant is handed out at most once, none is lost
 	if enableGrants {
+		r.ArmYields([]string{"hopserver.", "authgrants."}, 1+r.Intn("cons", 4), 1+r.Intn("cons", 10), []float64{0.3, 1}[r.Intn("cons", 2)])
+		r.YieldsOn(true)
+		defer r.YieldsOn(false)
 		gu := "carol"
 		gk := newX25519()
 		added, handed := 0, 0
@@ -477,6 +485,31 @@ func scLogin(r *Run) {
 		r.Obligation(1)
 		if handed+left != added {
 			r.Violate("C05/grants-not-conserved", "%d grants added, %d handed out by AuthorizeKeyAuthGrant, %d still stored: a grant was handed out twice or lost", added, handed, left)
+		}
+	}
+	// grants switched off at run time (the configuration is live): a grant that was added while they
+	// were enabled must no longer admit anybody
+	if enableGrants && r.Intn("toggle", 2) == 0 {
+		tu := users[r.Intn("toggle", len(users))]
+		tk := newX25519()
+		in := &authgrants.Intent{GrantType: authgrants.Shell, StartTime: time.Now(), ExpTime: time.Now().Add(time.Hour),
+			TargetUsername: tu, DelegateCert: *SelfSigned(tk.Public, certs.RawStringName("delegate"))}
+		if hs.AddAuthGrant(in) == nil {
+			srvCfg.EnableAuthgrants = false
+			r.CountFault("grants-disabled-at-runtime", 1)
+			time.Sleep(10 * time.Millisecond)
+			if _, err := hs.AuthorizeKeyAuthGrant(tu, tk.Public); err == nil && !allowedByFile(tu, tk.Public) {
+				r.Violate("C05/grant-honoured-while-grants-disabled", "AuthorizeKeyAuthGrant handed out a grant although authorization grants are disabled")
+			}
+			lc, ok, err := dialLogin(r, n, ts, 200, tk, tu)
+			if lc != nil {
+				lc.close(r)
+			}
+			r.Obligation(1)
+			if err == nil && ok && !allowedByFile(tu, tk.Public) {
+				r.Violate("C05/grant-honoured-while-grants-disabled", "server confirmed a login as %q that only a grant could justify, although authorization grants had been disabled", tu)
+			}
+			srvCfg.EnableAuthgrants = true
 		}
 	}
 	r.Sample = append(r.Sample, fmt.Sprintf("attempts=%d grants=%v", nAttempts, enableGrants))
